@@ -120,3 +120,6 @@ pub assume_specification [ SocketAddr::port ] (s: &SocketAddr) -> (r: u16)
 
 pub assume_specification [ <Bytes as AsRef<[u8]>>::as_ref ] (b: &Bytes) -> (r: &[u8])
     ensures r == bytes_ref(b);
+
+pub assume_specification [ <BytesMut as PartialEq>::eq ] (a: &BytesMut, b: &BytesMut) -> (r: bool)
+    ensures r == (bmview(a) == bmview(b));
